@@ -21,6 +21,7 @@ class Taint(object):
         for nm, node in (helpers or {}).items():
             self.nested.setdefault(nm, node)  # module-level functions / methods the serialiser was split into
         self.findings = []  # (line, kind, text)
+        self.undecided = []  # (line, text)
         self.memo = {}
         self.stack = []
         self.calls = 0
@@ -103,6 +104,12 @@ class Taint(object):
                 self.findings.append((e.lineno, "rewritten", "`%s`: serialised text is rewritten by content (.%s()) - line breaks, blanks or characters inside a quoted string value are treated like the layout around it" % (self.src(e)[:70], f.attr)))
                 return True
             if any(args_t) and f.attr in TEXT_FUNCS:
+                pat = e.args[0] if e.args else None
+                if f.attr in ("sub", "subn") and isinstance(pat, ast.Constant) and isinstance(pat.value, str) and pat.value.lstrip("(?:").startswith('"') and "|" in pat.value:
+                    # a substitution whose pattern first matches a whole quoted string (to copy it) and only then the layout
+                    # character it is after: a tokenising pass - whether its string alternative agrees with the lexer is not decided here
+                    self.undecided.append((e.lineno, "`%s`: serialised text goes through a regular-expression pass that claims to step over quoted strings" % self.src(e)[:70]))
+                    return True
                 self.findings.append((e.lineno, "rewritten", "`%s`: serialised text is passed through %s()" % (self.src(e)[:70], f.attr)))
                 return True
             return recv_t and f.attr in ("encode", "decode", "__str__", "__add__")
@@ -180,4 +187,7 @@ def analyse(fn_node, src, helpers=None):
         if (f[0], f[1]) not in seen:
             seen.add((f[0], f[1]))
             out.append(f)
+    if not out and t.undecided:
+        from engine.report import AnalysisError
+        raise AnalysisError("C15.f: %s" % t.undecided[0][1])
     return out, t.calls
